@@ -103,6 +103,8 @@ func (k Keeper) WithdrawAllAvailable(ctx sdk.Context, owner string) (withdrawn s
 		k.Logger(ctx).Debug("withdraw all available owner parsing error", "owner", owner, "error", err.Error())
 		return withdrawn, sdkerrors.Wrap(types.ErrParsing, sdkerrors.Wrapf(err, "withdraw all available owner parsing error: %s", owner).Error())
 	}
+	// pools are stored under the canonical spelling of the address (an upper-case bech32 string names the same account)
+	owner = ownerAddress.String()
 
 	accVestingPools, vestingPoolsFound := k.GetAccountVestingPools(ctx, owner)
 	if !vestingPoolsFound {
@@ -170,11 +172,13 @@ func (k Keeper) WithdrawAllAvailable(ctx sdk.Context, owner string) (withdrawn s
 func (k Keeper) SendToNewVestingAccount(ctx sdk.Context, owner string, toAddr string, vestingPoolName string, amount math.Int, restartVesting bool) (withdrawn sdk.Coin, returnedError error) {
 	k.Logger(ctx).Debug("send to new vesting account", "owner", owner, "toAddr", toAddr, "vestingPoolName", vestingPoolName, "amount", amount, "restartVesting", restartVesting)
 
-	_, toAccAddress, err := types.ValidateSendToVestingAccount(owner, toAddr, vestingPoolName, amount)
+	ownerAccAddress, toAccAddress, err := types.ValidateSendToVestingAccount(owner, toAddr, vestingPoolName, amount)
 	if err != nil {
 		k.Logger(ctx).Debug("send to new vesting account validation error", "error", err.Error())
 		return withdrawn, err
 	}
+	// pools and traces are keyed by the canonical spelling of the addresses
+	owner, toAddr = ownerAccAddress.String(), toAccAddress.String()
 
 	w, err := k.WithdrawAllAvailable(ctx, owner)
 	if err != nil {
